@@ -101,8 +101,8 @@ def optRecord (toks : Array String) : String := Id.run do
   let boundSq : Rat := match alg with
     | .lbfgs => let t := tol * maxR (rq 1 10) (absR fret) * rq 1001 1000 + graderr; (n : Rat) * t * t
     | .lbfgsb => 2 * (rq 22 100000000 + 50 * (n : Rat) * (tol + graderr) * (tol + graderr)) * maxR 1 (absR (P.F (vecOf xsr)))
-    | .interiorPoint => let t := 200 * (tol + ctol + graderr) + rq 1 10000; t * t
-    | .cmaes => 2500 * tol
+    | .interiorPoint => let t := 20 * (tol + ctol + graderr) + rq 1 100000; t * t
+    | .cmaes => if hasLim then rq 25 10000 else (let t := 10 * sqrtUpper tol + rq 1 10000; t * t)
     | _ => 1
   let start := if alg == .lbfgsb then clampTo P.lo P.hi x0 else x0
   let o : Outcome Rat := {
